@@ -74,6 +74,26 @@ def tallies(db):
     return out
 
 
+def fallback_only_when_withdrawn(prev, db):
+    """C04 "a Creating or Running job may fall back to Ready when its attempt is withdrawn" / C39 "never double-runs":
+    a job that was Creating/Running and is Ready afterwards must have had its (previous) current attempt ended by the
+    operation (unschedule_job / deactivate_instance of that attempt's instance set attempts.end_time); otherwise the old
+    attempt is still live on its worker while the scheduler may start another one."""
+    out = []
+    pj = {f.j: f for f in oracle.jobs(prev)}
+    att = db.t['attempts']
+    for f in oracle.jobs(db):
+        o = pj[f.j]
+        fell = b_and(o.present, f.present, b_or(o.in_state('Creating'), o.in_state('Running')), f.in_state('Ready'))
+        ended = o.attempt_id.n
+        for k, r in att.rows.items():
+            if k[1] != f.j:
+                continue
+            ended = b_or(ended, b_and(r.present, b_not(o.attempt_id.n), i_eq(o.attempt_id.v, k[2]), b_not(r.vals['end_time'].n)))
+        out.append((f'job {f.j}: falls back to Ready only when its current attempt was withdrawn (ended)', imp(fell, ended)))
+    return out
+
+
 # ---- C05: dependencies --------------------------------------------------------------------------------
 def dependencies(db):
     out = []
